@@ -100,6 +100,7 @@ class Verdict:
         self.bad_refs = set()     # Manifest files for which some accepted Manifest holds a MANIFEST entry that does not match
         self.chain_why = {}
         self.chain_holders = {}   # broken link -> Manifests holding the entries it fails
+        self.chain_uncomputable = set()   # broken links whose failing entries only carry hashes that cannot be computed here
         self.partial = set()      # broken links that DO match the entry of one accepted parent Manifest and fail another's
 
     def as_dict(self):
@@ -212,6 +213,8 @@ class Model:
                     v.chain.append(full)
                     v.chain_why[full] = whys[0]
                     v.chain_holders[full] = [h for h, w_ in zip(holders[full], whys_all) if w_ is not None]
+                    if all(w_ == 'unsupported-hash' for w_ in whys):
+                        v.chain_uncomputable.add(full)
                     if len(whys) < len(cand[full]):
                         v.partial.add(full)
                     continue
